@@ -288,6 +288,51 @@ def run(ctx):
             if not held:
                 run.finding(Finding(R3, rt.id, "advanced query path is not given the account", site=c.site_of(rt, b)))
 
+    # the owner API always asks for the active account's entries: every look-up (listing, by log id, by slate id,
+    # advanced) is handed Some(active account) - a slate id is not unique inside a wallet (self-send between accounts)
+    ort = ctx.fn(c.LW + "api_impl::owner::retrieve_txs")
+    if ort is None:
+        run.error("C19.R3: api_impl::owner::retrieve_txs not found")
+    else:
+        for b, t in cfg.find_calls(ort, UPD + "retrieve_txs"):
+            pr = vf.producers(ort, t["a"][4])
+            somes = [x for x in pr if x[0] == "agg" and x[1] == "core::option::Option"]
+            held = bool(somes) and all(x[2] == "Some" for x in somes) and vf.has_call(vf.origins(ort, t["a"][4]), c.WB + "parent_key_id")
+            run.instance(R3, {"fn": "owner::retrieve_txs", "obligation": "the log look-up is always restricted to Some(active account)", "account argument": sorted(map(str, somes))}, held=held)
+            if not held:
+                run.finding(Finding(R3, ort.id, "a log look-up of the owner API is not restricted to the active account on every path (a slate id is not unique inside a wallet: a look-up by slate id would also return the other account's side of a self-send)", site=c.site_of(ort, b)))
+
+    R5 = "C19.R5"
+    run.rule(R5, "a confirmation-time criterion is not satisfied by an entry that has no confirmation time", floor=2)
+    advf = ctx.fn(ADV)
+    n5 = 0
+    if advf:
+        for k in db.closures_of(advf.id, recursive=False):
+            g = db.fns[k]
+            try:
+                paths = dectree.PathEnum(g, db).paths(0)
+            except dectree.TooManyPaths:
+                continue
+            rel = [p for p in paths if any(e[0] == "lit" and e[1].endswith(".confirmation_ts") for e in p.events)]
+            if not rel:
+                continue
+            n5 += 1
+            bad = 0
+            for p in rel:
+                none_ts = any(e[0] == "lit" and e[1].endswith(".confirmation_ts") and ((e[2] == "None" and e[3]) or (isinstance(e[2], tuple) and "Some" in e[2] and not e[3]) or (e[2] == "Some" and e[3] is False)) for e in p.events)
+                crit = any(e[0] == "lit" and "_confirmed_timestamp" in e[1] and e[2] == "Some" and e[3] is True for e in p.events)
+                if none_ts and crit:
+                    v = [e[2] for e in p.events if e[0] == "set" and e[1] == "_0"]
+                    if not v or v[-1] != "0":
+                        bad += 1
+            crit_names = sorted({e[1].split(".")[-1] for p in rel for e in p.events if e[0] == "lit" and "_confirmed_timestamp" in e[1]})
+            cname = "/".join(crit_names) or "?"
+            run.instance(R5, {"fn": pp.short(k), "criterion": cname, "obligation": "criterion given and entry.confirmation_ts None => false", "paths returning true": bad}, held=bad == 0)
+            if bad:
+                run.finding(Finding(R5, ADV, "the %s criterion lets every entry without a confirmation time through (an outstanding entry satisfies `confirmed after <future date>`)" % cname, site=g.loc()))
+        if n5 == 0:
+            run.error("C19.R5: no filter closure reads TxLogEntry.confirmation_ts (anchor missing)")
+
     R4 = "C19.R4"
     run.rule(R4, "legacy look-ups: by log id, by slate id, outstanding predicate", floor=3)
     if rt:
